@@ -5,6 +5,7 @@
 //!   pie_replay graph --k K --l L [--random N --len M --seed S]     enumerate; prints one JSON line per violation (max 5)
 //!   pie_replay replay '<json ops>'                                   run exactly one recorded operation sequence
 use pie_graph::{DAG, Error, Node};
+mod piemodel;
 
 #[derive(Clone, Copy, Debug, PartialEq)]
 enum Op { AddNode, AddEdge(usize, usize), RemoveEdge(usize, usize), RemoveOut(usize), RemoveNode(usize) }
@@ -113,6 +114,17 @@ fn check_state(dag: &DAG<u32, u32>, m: &Model, nodes: &[Node]) -> Result<(), Fai
       }
     }
   }
+  // back-to-back reachability queries in several orders: a query must not depend on what the previous one left behind
+  let pairs: Vec<(usize, usize)> = (0..k).flat_map(|a| (0..k).map(move |b| (a, b))).collect();
+  let np = pairs.len();
+  for order in 0..4usize {
+    for j in 0..np {
+      let (a, b) = match order { 0 => pairs[j], 1 => pairs[np - 1 - j], 2 => pairs[(j * 7 + 3) % np], _ => { let (x, y) = pairs[(j * 5 + 1) % np]; (y, x) } };
+      if order >= 2 && (np % 7 == 0 || np % 5 == 0) && j > 0 { /* strides not coprime: still a valid query sequence */ }
+      let r = m.present[a] && m.present[b] && a != b && m.reach(a, b);
+      if dag.contains_transitive_edge(nodes[a], nodes[b]) != r { fail!("C11", "C11.contains_transitive_edge.exact", "contains_transitive_edge({},{}) = {} expected {} (query order {}, position {})", a, b, !r, r, order, j); }
+    }
+  }
   Ok(())
 }
 
@@ -207,6 +219,7 @@ impl Rng { fn next(&mut self) -> u64 { self.0 ^= self.0 << 13; self.0 ^= self.0 
 
 fn main() {
   let args: Vec<String> = std::env::args().collect();
+  if args.len() >= 2 && (args[1] == "pie" || args[1] == "pie-case") { pie_main(&args); return; }
   if args.len() >= 3 && args[1] == "replay" {
     let ops = parse_ops(&args[2]);
     match run(&ops) { Ok(()) => { println!("{{\"violation\":false,\"ops\":{}}}", ops_json(&ops)); }, Err((at, f)) => { report(&ops, at, &f); std::process::exit(1); } }
@@ -244,5 +257,42 @@ fn main() {
     if let Err((at, f)) = run(&ops) { report(&ops, at, &f); found += 1; }
   }
   println!("{{\"summary\":true,\"k\":{},\"l\":{},\"random\":{},\"random_len\":{},\"seed\":{},\"sequences\":{},\"nontrivial\":{},\"violations\":{},\"exhaustive_part_complete\":{}}}", k, l, random, len, seed, runs, nontrivial, found, found < 5);
+  if found > 0 { std::process::exit(1); }
+}
+
+/// pie-level exploration: `pie --programs N --hist L --seed S` runs the injected-violation cases and N random
+/// (program, history) cases; `pie-case --seed S --index I --hist L` re-runs one of them (index of the random case) and
+/// `pie-case --violation NAME` one injected-violation case.
+fn pie_main(args: &[String]) {
+  use piemodel::*;
+  std::panic::set_hook(Box::new(|_| {}));
+  let get = |name: &str, d: usize| -> usize { args.iter().position(|a| a == name).map(|i| args[i + 1].parse().unwrap()).unwrap_or(d) };
+  let gets = |name: &str| -> Option<String> { args.iter().position(|a| a == name).map(|i| args[i + 1].clone()) };
+  let (programs, hist, seed) = (get("--programs", 500), get("--hist", 8), get("--seed", 1));
+  let only_index = if args[1] == "pie-case" { Some(get("--index", usize::MAX)) } else { None };
+  let only_violation = gets("--violation");
+  let mut found = 0usize; let mut ran = 0u64;
+  let emit = |f: &Fail, how: String, detail: String| {
+    println!("{{\"violation\":true,\"engine\":\"pie\",\"property\":\"{}\",\"obligation\":\"{}\",\"rerun\":{:?},\"what\":{:?},\"case\":{:?}}}", f.prop, f.ob, how, f.what, detail);
+  };
+  if only_index.is_none() || only_violation.is_some() {
+    for (prop, ob, prog, h, expect) in violation_cases() {
+      if let Some(v) = &only_violation { if v != ob { continue; } }
+      ran += 1;
+      if let Err(f) = run_violation(&prog, &h, expect, prop, ob) { emit(&f, format!("pie-case --violation {}", ob), format!("program {:?} history {:?}", prog, h)); found += 1; }
+    }
+  }
+  if only_violation.is_none() {
+    let range = match only_index { Some(ix) => ix..ix + 1, None => 0..programs };
+    for i in range {
+      let mut rng = Rng((0x9E3779B97F4A7C15u64 ^ (seed as u64).wrapping_mul(0xD1342543DE82EF95) ^ (i as u64).wrapping_mul(0xA24BAED4963EE407)) | 1);
+      for _ in 0..4 { rng.next(); }
+      let (prog, _w) = gen_program(&mut rng);
+      let h = gen_history(&mut rng, hist);
+      ran += 1;
+      if let Err(f) = run_case_attributed(&prog, &h) { emit(&f, format!("pie-case --seed {} --index {} --hist {}", seed, i, hist), format!("program {:?} history {:?}", prog, h)); found += 1; if found >= 5 { break; } }
+    }
+  }
+  println!("{{\"summary\":true,\"engine\":\"pie\",\"programs\":{},\"history_len\":{},\"seed\":{},\"cases\":{},\"violations\":{}}}", programs, hist, seed, ran, found);
   if found > 0 { std::process::exit(1); }
 }
